@@ -46,7 +46,50 @@ def relayout(sc, layout, synthetic=0):
     return True
 
 
+# names that the note format has to quote, with the quote character at the edges and inside, next to a control name
+EDGE_NAMES = ['trail"', '"lead.txt', 'notes "draft"', '"quoted".txt', 'dq"uote.txt', "sp ace.txt", "plain.txt"]
+
+
+def name_cells():
+    return ["%s|%s" % (n, op) for n in EDGE_NAMES for op in ("rebase", "cherry-pick")]
+
+
+def run_name_cell(case):
+    """Deterministic part: an agent's three lines at the end of a file with a hostile NAME are committed on a branch; the base branch
+    inserts three lines at the top of the same file (so the rewrite cannot copy the note, it has to re-map it through the new content);
+    rebase / cherry-pick; every note is validated against its commit, and the re-mapped note must list the agent's lines where they
+    now are."""
+    from ..witness.common import Script
+
+    class S(Script, Hist):
+        pass
+    name, op = case["cell"].rsplit("|", 1)
+    s = S("nm", files=1)
+    try:
+        f0 = [s.line("human") for _ in range(8)]
+        s.human_write(name, f0); s.human_write("other.txt", [s.line("human")]); s.commit_all("init")
+        s.g("checkout", "-q", "-b", "feat")
+        s.ai_write("S1", name, f0 + [s.line("S1"), s.line("S1"), s.line("S1")]); s.commit_all("feat: agent lines at the end")
+        s.g("checkout", "-q", "main")
+        s.human_write(name, [s.line("human"), s.line("human"), s.line("human")] + f0); s.commit_all("main: a person's lines at the top")
+        if op == "rebase":
+            s.g("checkout", "-q", "feat"); s.g("rebase", "main")
+        else:
+            s.g("cherry-pick", "feat")
+        s.after_step("name cell " + case["cell"])
+        if not s.in_progress():
+            s.check_commit_exact(s.head(), "name cell " + case["cell"], rule="C05")
+        r = s.finish()
+        r.update(index=case.get("index", 0), nontrivial=True, sig="name:" + case["cell"], cell=case["cell"])
+        r["sample"] = dict(cell=case["cell"], steps=s.log[:30])
+        return r
+    finally:
+        s.destroy()
+
+
 def run_case(case):
+    if case.get("cell"):
+        return run_name_cell(case)
     seed, index, flags_off = case["seed"], case["index"], case.get("flags_off", [])
     prng = random.Random("%s:C05p:%s" % (seed, index))
     prof = C.base_profile(prng, flags_off)
@@ -102,8 +145,15 @@ def run_case(case):
         sc.destroy()
 
 
+def run_name_cells(rep):
+    from .. import runner as R
+    res = [R._worker((run_case, dict(cell=c, index=900000 + i, seed=0))) for i, c in enumerate(name_cells())]
+    rep.add_results(res)
+    rep.counters["name_cells_run"] += len(res)
+
+
 def main(tier, seed, replay=None):
     return C.standard_main("C05", run_case, RULE, "exploration",
                            ["the same monitor runs after every step of every other scenario-based check", "notes written by other tools into refs/notes/ai are out of scope",
                             "trusts git plumbing (ls-tree, cat-file) and the published v3 spec"],
-                           tier, seed, replay, 50, 480)
+                           tier, seed, replay, 50, 480, before_pool=run_name_cells)
